@@ -31,6 +31,23 @@ pub struct LSheet {
     pub cells: BTreeMap<(u32, u32), V>,
     /// plain formula text per cell (written only by formats/writers that take text: xlsx, ods)
     pub formulas: BTreeMap<(u32, u32), String>,
+    /// 0 = worksheet, 1 = chart sheet, 2 = dialog sheet (xlsx/xlsb) / macro sheet (xls); ignored for ods
+    pub kind: u8,
+    /// xlsb only: the sheet is declared by a BrtBundleSh with a NULL relationship id (the reader skips it)
+    pub no_rel: bool,
+    /// xlsx only: shared-formula groups
+    pub shared: Vec<SharedGroup>,
+}
+
+/// One xlsx shared-formula group: the cells `members` (in document order) carry `<f t="shared" si=…>`; the one at
+/// index `master` (if any) also carries the text and the `ref`. A master that is not the first member, or no master
+/// at all, is unusual but must not make reads depend on each other.
+#[derive(Clone, Debug, Default)]
+pub struct SharedGroup {
+    pub si: u32,
+    pub members: Vec<(u32, u32)>,
+    pub master: Option<usize>,
+    pub text: String,
 }
 
 #[derive(Clone, Debug, Default)]
@@ -92,6 +109,11 @@ pub fn write(book: &LBook, fmt: Fmt, rng: &mut Rng) -> Vec<u8> {
             let mut b = xlsw::XlsBook::new();
             for s in &book.sheets {
                 let mut sh = xlsw::XlsSheet::new(&s.name);
+                sh.kind = match s.kind {
+                    1 => 2,
+                    2 => 1,
+                    _ => 0,
+                };
                 for ((r, c), v) in &s.cells {
                     let cv = match v {
                         V::Num(f) => xlsw::CellV::Number(*f),
@@ -108,6 +130,12 @@ pub fn write(book: &LBook, fmt: Fmt, rng: &mut Rng) -> Vec<u8> {
             let mut b = xlsxw::XlsxBook::new();
             for s in &book.sheets {
                 let mut sh = xlsxw::XlsxSheet::new(&s.name);
+                sh.folder = match s.kind {
+                    1 => "chartsheets",
+                    2 => "dialogsheets",
+                    _ => "worksheets",
+                }
+                .to_string();
                 for ((r, c), v) in &s.cells {
                     let xv = match v {
                         V::Num(f) => xlsxw::XVal::Num(format!("{}", f)),
@@ -126,6 +154,20 @@ pub fn write(book: &LBook, fmt: Fmt, rng: &mut Rng) -> Vec<u8> {
                     }
                     sh.set(*r, *c, cell);
                 }
+                for g in &s.shared {
+                    let (r0, c0) = *g.members.iter().min().unwrap();
+                    let (r1, c1) = *g.members.iter().max().unwrap();
+                    let rf = format!("{}:{}", xlsxw::a1(r0, c0), xlsxw::a1(r1, c1));
+                    for (i, (r, c)) in g.members.iter().enumerate() {
+                        let is_master = g.master == Some(i);
+                        let mut cell = sh.cells.get(&(*r, *c)).cloned().unwrap_or(xlsxw::XCell::new(xlsxw::XVal::Num("1.5".into())));
+                        cell.formula = Some(xlsxw::XFormula {
+                            text: if is_master { g.text.clone() } else { String::new() },
+                            shared: Some((g.si, if is_master { Some(rf.clone()) } else { None })),
+                        });
+                        sh.set(*r, *c, cell);
+                    }
+                }
                 b.sheets.push(sh);
             }
             let mut l = xlsxw::Layout::random(rng);
@@ -138,6 +180,12 @@ pub fn write(book: &LBook, fmt: Fmt, rng: &mut Rng) -> Vec<u8> {
             let mut b = xlsbw::XlsbBook::new();
             for s in &book.sheets {
                 let mut sh = xlsbw::XlsbSheet::new(&s.name);
+                sh.kind = match s.kind {
+                    1 => xlsbw::SheetKind::Chart,
+                    2 => xlsbw::SheetKind::Dialog,
+                    _ => xlsbw::SheetKind::Work,
+                };
+                sh.no_rel = s.no_rel;
                 for ((r, c), v) in &s.cells {
                     let bv = match v {
                         V::Num(f) => xlsbw::BVal::real(*f),
@@ -247,6 +295,49 @@ pub fn gen_sheet_at(rng: &mut Rng, name: &str, max_cells: u64, (r0, c0, h, w): (
         s.cells.insert((r, c), gen_value(rng));
     }
     s
+}
+
+/// like `gen_book`, plus what the reader-API properties need: sheets of other kinds, plain formulas (xlsx, ods),
+/// xlsx shared-formula groups (master first / last / absent, `si` reused across sheets), an xlsb sheet entry
+/// without relationship
+pub fn gen_book_rich(rng: &mut Rng, fmt: Fmt, max_sheets: u64, max_cells: u64) -> LBook {
+    let mut b = gen_book(rng, fmt, max_sheets, max_cells);
+    let n = b.sheets.len();
+    for (i, s) in b.sheets.iter_mut().enumerate() {
+        if fmt != Fmt::Ods && n > 1 && rng.chance(1, 5) {
+            s.kind = rng.range(1, 2) as u8;
+        }
+        if fmt == Fmt::Xlsb && n > 1 && i + 1 < n && rng.chance(1, 6) {
+            s.no_rel = true;
+        }
+        if matches!(fmt, Fmt::Xlsx | Fmt::Ods) {
+            let keys: Vec<(u32, u32)> = s.cells.keys().cloned().collect();
+            for k in keys {
+                if rng.chance(1, 5) {
+                    let f = if fmt == Fmt::Ods { format!("of:={}+1", rng.below(9)) } else { format!("{}+1", rng.below(9)) };
+                    s.formulas.insert(k, f);
+                }
+            }
+        }
+        if fmt == Fmt::Xlsx && s.kind == 0 && rng.chance(1, 2) {
+            if let Some(&(r, c)) = s.cells.keys().next() {
+                let len = rng.range(2, 4) as u32;
+                let members: Vec<(u32, u32)> = (0..len).map(|k| (r + k, c)).collect();
+                if members.iter().all(|m| m.0 <= fmt.max_row()) {
+                    let master = match rng.below(20) {
+                        0..=11 => Some(0),
+                        12..=16 => Some(len as usize - 1),
+                        _ => None,
+                    };
+                    for m in &members {
+                        s.formulas.remove(m);
+                    }
+                    s.shared.push(SharedGroup { si: rng.below(2) as u32, members, master, text: format!("{}*2", xlsxw::a1(r, c + 1)) });
+                }
+            }
+        }
+    }
+    b
 }
 
 pub fn gen_book(rng: &mut Rng, fmt: Fmt, max_sheets: u64, max_cells: u64) -> LBook {
